@@ -92,6 +92,13 @@ def load_known(path):
     return known, fixed
 
 
+OUT_DIR = None
+
+
+def out_dir():
+    return OUT_DIR or os.path.join(HERE, 'evidence')
+
+
 def run_property(prop, tier, facts_by_cfg, repo, seed):
     t0 = time.time()
     mod = importlib.import_module('rules.%s' % prop.lower())
@@ -109,6 +116,13 @@ def run_property(prop, tier, facts_by_cfg, repo, seed):
         extra(ctx)
         ctxs.append(ctx)
 
+    if tier == 'thorough' and os.environ.get('A10_VERIF_NO_MUTANTS') != '1':
+        from rules import vitality
+        ctx = Ctx(prop, next(iter(facts_by_cfg.values())), tier, 'mutants')
+        ctx.repo = repo
+        ctx.run('%s.M' % prop, 'vitality: every seeded mutant of this property (one broken rule instance each) is reported with its expected key', lambda r, facts: vitality.replay(r, prop, repo))
+        ctxs.append(ctx)
+
     known, _fixed = load_known(os.path.join(HERE, 'known_findings.txt'))
     violations = {}
     for ctx in ctxs:
@@ -119,8 +133,8 @@ def run_property(prop, tier, facts_by_cfg, repo, seed):
     kn = {k: v for k, v in violations.items() if (prop, k) in known}
 
     # ---- report + evidence
-    os.makedirs(os.path.join(HERE, 'evidence'), exist_ok=True)
-    report_path = os.path.join(HERE, 'evidence', '%s.report.txt' % prop)
+    os.makedirs(out_dir(), exist_ok=True)
+    report_path = os.path.join(out_dir(), '%s.report.txt' % prop)
     lines = []
     n_inst = 0
     rules_j = []
@@ -135,7 +149,7 @@ def run_property(prop, tier, facts_by_cfg, repo, seed):
             for v in r.violations:
                 tag = 'KNOWN' if (prop, v['key']) in known else 'VIOLATION'
                 lines.append('    %s key=%s at %s: %s' % (tag, v['key'], v['where'], v['msg']))
-            if ctx is first or ctx.cfg_name == 'extra':
+            if ctx is first or ctx.cfg_name in ('extra', 'mutants'):
                 n_inst += len(r.instances)
                 rules_j.append({
                     'rule': r.id, 'text': r.text, 'config': ctx.cfg_name,
@@ -186,7 +200,7 @@ def run_property(prop, tier, facts_by_cfg, repo, seed):
         'wall_s': round(time.time() - t0, 3),
         'violations': len(new),
     }
-    with open(os.path.join(HERE, 'evidence', '%s.json' % prop), 'w') as fh:
+    with open(os.path.join(out_dir(), '%s.json' % prop), 'w') as fh:
         json.dump(ev, fh, indent=1)
     for k, v in sorted(kn.items()):
         print('KNOWN-FINDING: property=%s key=%s %s' % (prop, k, known[(prop, k)]))
@@ -208,12 +222,17 @@ def main():
     ap.add_argument('--repo', default=os.environ.get('A10_VERIF_REPO', '/repo'))
     ap.add_argument('--facts', help='reuse an existing fact file (debugging only)')
     ap.add_argument('--keep-facts', help='copy the default-config fact file here')
+    ap.add_argument('--out-dir', help='write evidence/report here instead of /verif/evidence (mutant replays)')
+    ap.add_argument('--no-mutants', action='store_true', help='skip the mutant replay of the thorough tier')
     args = ap.parse_args()
     have = [p for p in PROPS if os.path.exists(os.path.join(HERE, 'rules', p.lower() + '.py'))]
     props = have if args.all else (args.property or [])
     if not props:
         ap.error('need --property or --all')
     seed = int(os.environ.get('VERIF_SEED', '0') or 0)
+    global OUT_DIR
+    OUT_DIR = args.out_dir
+    os.environ['A10_VERIF_NO_MUTANTS'] = '1' if (args.no_mutants or args.out_dir) else os.environ.get('A10_VERIF_NO_MUTANTS', '0')
     tmps = []
     facts_by_cfg = {}
     try:
